@@ -217,6 +217,9 @@ def rule_e1(ctx, P, G, T, reach, roots, exc):
                 if const_of(strip_casts(idx)) is not None:
                     continue
                 n_all += 1
+                se = fn.sub_event(nd['id'])
+                if se is not None:
+                    ev, b = se, se.block
                 pos_b, pos_i = (ev.block, ev.idx) if ev is not None else (b, len(b.events))
                 if not T.expr_tainted(fn, idx, pos_b, pos_i):
                     continue
